@@ -543,7 +543,7 @@ ARG_NAMES = ["name", "path", "file", "target", "source", "dest", "key", "value",
 OPT_NAMES = ["force", "dry-run", "output", "format", "verbose-level", "all", "tree", "no-dev", "with", "without", "only",
              "extras", "python", "lock", "remove-untracked", "quiet-mode", "jobs", "xy", "yes", "no-cache",
              "anoptionwhoselongnameislongerthanmostlabels"]
-LEAF_NAMES = ["add", "remove", "list", "show"]
+LEAF_NAMES = ["add", "remove", "list", "show", "help"]  # also a sub-command literally named `help`
 ALIASES = ["ad", "rm", "ls", "sh", "cfg", "i", "up", "s2", "cc", "r", "bld", "e", "chk", "lk", "ex", "mk"]
 DEFAULTS = [["\"text\""], ["7"], ["1.5"], ["true"], ["false"], ["\"two", "words\""], ["\"" + "z" * 45 + "\""], ["0"], ["-3"], ['""']]
 LIST_DEFAULTS = [["[\"a\",", "\"b\"]"], ["[1,", "2,", "3]"], ["[\"only\"]"], ["[0]"], ["[\"\"]"]]  # lists of one element too
@@ -662,6 +662,9 @@ def random_cfg(rng, tags=False):
             a = rng.choice(cand)
             aliases.add(a)
             al.append(a)
+        if sub and "help" not in sub_names and rng.random() < 0.08:
+            sub_names.add("help")  # ... or one that answers to the alias `help`
+            al.append("help")
         anon = rng.random() < 0.12
         has_subs = (not sub) and (not anon) and rng.random() < 0.6
         dflt = anon or rng.random() < (0.25 if sub else 0.1)
